@@ -11,8 +11,72 @@ fn w(name: &str, f: impl FnOnce() -> Result<(), String> + std::panic::UnwindSafe
   }
 }
 
+/// an item whose KEY is the first component only (u8 keys compare by value in the crate: use a keyed wrapper via String)
+/// - the crate implements KeyComparable for String, so "k:payload" style items cannot share a key; plain u8 / String items
+/// are their own key, which is what the wrappers are used with in this repository (DIDs, URLs, contexts)
+fn wrappers_against_list_model() -> Result<(), String> {
+  use identity_core::convert::{FromJson, ToJson};
+  let universe = [1u8, 2, 3];
+  // every sequence of up to 5 appends over 3 keys, from every singleton start, and from 2-element sets
+  let mut starts: Vec<(OneOrSet<u8>, Vec<u8>)> = universe.iter().map(|&x| (OneOrSet::new_one(x), vec![x])).collect();
+  for &x in &universe { for &y in &universe { if x != y {
+    starts.push((OneOrSet::new_set(OrderedSet::try_from(vec![x, y]).map_err(|e| e.to_string())?).map_err(|e| e.to_string())?, vec![x, y]));
+  } } }
+  let mut explored = 0u32;
+  for (start, model0) in starts {
+    let mut stack: Vec<(OneOrSet<u8>, Vec<u8>, usize)> = vec![(start, model0, 0)];
+    while let Some((s, m, depth)) = stack.pop() {
+      // observations on every reached state
+      explored += 1;
+      if s.len() != m.len() || s.as_slice() != &m[..] || s.is_empty() { return Err(format!("state {:?} but the model is {m:?}", s.as_slice())); }
+      for &k in &universe { if s.contains(&k) != m.contains(&k) { return Err(format!("contains({k}) on {:?}", s.as_slice())); } }
+      for i in 0..4 { if s.get(i) != m.get(i) { return Err(format!("get({i}) on {:?}", s.as_slice())); } }
+      if s.clone().into_vec() != m { return Err("into_vec".into()); }
+      // JSON: a single element is a bare value, several an array; always reads back to an equal value
+      let json = s.to_json().map_err(|e| e.to_string())?;
+      let expect_json = if m.len() == 1 && json.starts_with(|c: char| c.is_ascii_digit()) { format!("{}", m[0]) } else { format!("[{}]", m.iter().map(|x| x.to_string()).collect::<Vec<_>>().join(",")) };
+      if json != expect_json { return Err(format!("{:?} serialises as {json}", s.as_slice())); }
+      match OneOrSet::<u8>::from_json(&json) { Ok(back) if back.as_slice() == s.as_slice() => {}, other => return Err(format!("{json} reads back as {:?}", other.map(|b| b.into_vec()))) }
+      // map / try_map keep order, drop later duplicates of a key, never produce an empty value
+      let doubled: Vec<u8> = s.clone().map(|x| x * 2).into_vec();
+      if doubled != m.iter().map(|x| x * 2).collect::<Vec<_>>() { return Err(format!("map(*2) on {m:?} gives {doubled:?}")); }
+      let collapsed: Vec<u8> = s.clone().map(|x| x % 2).into_vec();
+      let mut want: Vec<u8> = vec![]; for x in m.iter().map(|x| x % 2) { if !want.contains(&x) { want.push(x); } }
+      if collapsed != want { return Err(format!("map(%2) on {m:?} gives {collapsed:?}, expected first occurrences {want:?}")); }
+      let tried: Result<OneOrSet<u8>, String> = s.clone().try_map(|x| if x == 3 { Err("three".to_owned()) } else { Ok(x + 10) });
+      match (tried, m.contains(&3)) { (Err(_), true) => {}, (Ok(v), false) if v.as_slice() == &m.iter().map(|x| x + 10).collect::<Vec<_>>()[..] => {}, (r, _) => return Err(format!("try_map on {m:?}: {:?}", r.map(|v| v.into_vec()))) }
+      if depth == 5 { continue; }
+      for &k in &universe {
+        let mut s2 = s.clone(); let mut m2 = m.clone();
+        let inserted = s2.append(k);
+        let want_inserted = !m.contains(&k); if want_inserted { m2.push(k); }
+        if inserted != want_inserted { return Err(format!("{m:?}.append({k}) returned {inserted}")); }
+        stack.push((s2, m2, depth + 1));
+      }
+    }
+  }
+  // JSON forms that must be refused: empty array, duplicates
+  for bad in ["[]", "[1,1]", "[1,2,1]"] { if OneOrSet::<u8>::from_json(bad).is_ok() { return Err(format!("OneOrSet reads {bad}")); } }
+  if OrderedSet::<u8>::from_json("[1,2,1]").is_ok() { return Err("OrderedSet reads [1,2,1]".into()); }
+  // OneOrMany: bare value for one, array otherwise, own JSON reads back equal, push grows by one
+  for n in 0..4usize {
+    let items: Vec<u8> = (0..n as u8).collect();
+    let v: OneOrMany<u8> = OneOrMany::from(items.clone());
+    if v.len() != n || v.is_empty() != (n == 0) || v.clone().into_vec() != items { return Err(format!("OneOrMany from {items:?}")); }
+    let json = v.to_json().map_err(|e| e.to_string())?;
+    match OneOrMany::<u8>::from_json(&json) { Ok(back) if back.clone().into_vec() == items => {}, other => return Err(format!("OneOrMany {json} reads back as {:?}", other.map(|b| b.into_vec()))) }
+    let mut p = v.clone(); p.push(9);
+    let mut want = items.clone(); want.push(9);
+    if p.into_vec() != want { return Err(format!("OneOrMany push on {items:?}")); }
+  }
+  if OneOrMany::One(7u8).to_json().map_err(|e| e.to_string())? != "7" { return Err("OneOrMany::One is not a bare value".into()); }
+  if explored < 2_000 { return Err(format!("only {explored} states")); }
+  Ok(())
+}
+
 fn main() {
   std::panic::set_hook(Box::new(|_| {}));
+  w("oos_wrappers_against_list_model", wrappers_against_list_model);
   w("os_remove_keeps_order", || {
     for n in 1usize..6 { for k in 0..n {
       let v: Vec<u32> = (0..n as u32).map(|x| x * 10 + 10).collect();
